@@ -57,12 +57,20 @@ def slice_(
 
     pipeline: list[Any] = []
 
-    if _stop >= 0:
+    if _start < 0 and stop is not None and _stop > 0:
+        # A negative start is relative to the end of the stream while a
+        # non-negative stop is relative to its start: remember the original
+        # indices so the stop can be applied to the last -start elements.
+        pipeline.append(ops.map_indexed(lambda x, i: (i, x)))
+        pipeline.append(ops.take_last(-_start))
+        pipeline.append(ops.filter(lambda t: t[0] < _stop))
+        pipeline.append(ops.map(lambda t: t[1]))
+    elif _stop >= 0:
         pipeline.append(ops.take(_stop))
 
     if _start > 0:
         pipeline.append(ops.skip(_start))
-    elif _start < 0:
+    elif _start < 0 and (stop is None or _stop <= 0):
         pipeline.append(ops.take_last(-_start))
 
     if _stop < 0:
